@@ -397,7 +397,7 @@ def run(tier, replay=None):
         run_cases(rep, [case])
         return rep.finish(rule="replay")
     rng = rng_for(PROP)
-    n = 350 if tier == "quick" else 12000
+    n = 350 if tier == "quick" else 6000
     cases = corpus_cases(PROP) + [gen_schema(rng) for _ in range(n)]
     run_cases(rep, cases)
     return rep.finish(
